@@ -29,7 +29,7 @@ CLAUSE_PROPS = {
     "sampler-cursor": ["C05", "C04", "C01"], "sampler-generator-position": ["C05", "C04", "C01"], "sampler-seed-root": ["C01", "C05"],
     "model-vector": ["C02"], "model-seed-order": ["C01", "C02"], "model-length": ["C02"], "loss-series": ["C02"],
     "checkpoint-counters": ["C04", "C14"], "saving": ["C04"], "sorted-return": ["C02"],
-    "id-table": ["C18"], "threads-left": ["C11"], "raised": ["C11"],
+    "constructor-exactly-one-of": ["C09"], "id-table": ["C18"], "threads-left": ["C11"], "raised": ["C11"],
     "disk-batch-index": ["C04", "C14"], "disk-sample-counter": ["C04", "C14"], "disk-generator": ["C04", "C05"],
     "disk-sampler-names": ["C18"], "no-checkpoint-expected": ["C04"],
 }
